@@ -7,7 +7,7 @@ import json, os, shutil, subprocess, sys, tempfile
 VERIF = os.path.dirname(os.path.dirname(os.path.abspath(__file__)))
 wt, prop = sys.argv[1], sys.argv[2]
 tag = sys.argv[3] if len(sys.argv) > 3 else ""
-ALL = ["C01", "C02", "C03", "C04", "C05", "C06", "C07", "C08", "C09", "C10", "C11", "C12", "C13", "C14", "C15", "C16"]
+ALL = ["C01", "C02", "C03", "C04", "C05", "C06", "C07", "C08", "C09", "C10", "C11", "C12", "C13", "C15", "C16"]
 
 
 def sh(cmd, cwd, env=None, timeout=1200):
